@@ -189,7 +189,8 @@ def build_extraction():
     return True, ""
 
 
-def build_harness(race=False):
+def build_harness(comps=None, race=False):
+    """Build one harness binary per component from /repo's working tree. Returns ({comp: path}, output-on-failure)."""
     hd = os.path.join(ROOT, "harness")
     shutil.copyfile(os.path.join(REPO, "go.sum"), os.path.join(hd, "go.sum"))
     gomod = open(os.path.join(hd, "go.mod")).read()
@@ -197,12 +198,18 @@ def build_harness(race=False):
     if want not in gomod:
         gomod = re.sub(r"replace github.com/vulcand/oxy/v2 => \S+", want, gomod)
         open(os.path.join(hd, "go.mod"), "w").write(gomod)
-    out = os.path.join(BUILD, "harness_race" if race else "harness")
-    cmd = ["go", "build", "-tags", "verif"] + (["-race"] if race else []) + ["-o", out, "."]
-    rc, o = sh(cmd, cwd=hd, env=GOENV, timeout=1200)
-    if rc != 0:
-        return None, o
-    return out, o
+    if comps is None:
+        comps = sorted(d for d in os.listdir(hd) if os.path.exists(os.path.join(hd, d, "main.go")))
+    bins, errs = {}, ""
+    for c in comps:
+        out = os.path.join(BUILD, ("hr_" if race else "h_") + c)
+        cmd = ["go", "build", "-tags", "verif"] + (["-race"] if race else []) + ["-o", out, "./" + c]
+        rc, o = sh(cmd, cwd=hd, env=GOENV, timeout=1200)
+        if rc != 0:
+            errs += "building harness/%s against %s failed:\n%s\n" % (c, REPO, o[-3000:])
+        else:
+            bins[c] = out
+    return bins, errs
 
 
 def setup():
@@ -221,7 +228,7 @@ def setup():
             log(msg)
             return 1
         hb, o = build_harness()
-        if hb is None:
+        if o:
             log("harness build failed:\n" + o[-6000:])
             return 1
     log("setup done in %.1fs" % (time.time() - t0))
@@ -372,7 +379,7 @@ def run_harness(hbin, comp, seed, n, tier, workdir, tag, targeted=False, replay=
     for s in range(shards):
         trace = os.path.join(workdir, "%s.%s.%d.trace" % (comp, tag, s))
         rep = os.path.join(workdir, "%s.%s.%d.report.json" % (comp, tag, s))
-        cmd = [hbin, comp, "-seed", str(seed), "-tier", tier, "-out", trace, "-report", rep]
+        cmd = [hbin, "-seed", str(seed), "-tier", tier, "-out", trace, "-report", rep]
         if replay is not None:
             cmd += ["-replay", replay]
         else:
@@ -534,7 +541,7 @@ def check(pid, tier, seed):
         gen_fail = [msg for (ok, msg) in gen.values() if not ok]
         proof = check_props(pid, spec)
         ok_ext, msg_ext = build_extraction()
-        hbin, hout = build_harness()
+        hbins, hout = build_harness([c["name"] for c in spec["components"]])
     for msg in gen_fail:
         proof["broken"].append({"theorem": "Gen", "reason": msg[:500]})
     audit = grep_audit()
@@ -554,13 +561,16 @@ def check(pid, tier, seed):
     all_new_mons = []
     all_divs = []
     harness_errors = []
-    if hbin is None:
-        harness_errors.append("harness does not build against %s:\n%s" % (REPO, hout[-3000:]))
+    if hout:
+        harness_errors.append(hout)
     if not ok_ext:
         harness_errors.append(msg_ext)
-    if hbin is not None and ok_ext:
+    if ok_ext:
         for cspec in spec["components"]:
             comp = cspec["name"]
+            hbin = hbins.get(comp)
+            if hbin is None:
+                continue
             n = cspec["thorough" if tier == "thorough" else "quick"]
             shards = cspec.get("shards", 8 if tier == "thorough" else 4)
             extra_env = cspec.get("env")
@@ -624,7 +634,7 @@ def check(pid, tier, seed):
     extra = spec.get("extra")
     extra_cov = {}
     if extra:
-        ex_viol, extra_cov = extra(tier=tier, seed=seed, workdir=workdir, hbin=hbin, root=ROOT, repo=REPO,
+        ex_viol, extra_cov = extra(tier=tier, seed=seed, workdir=workdir, hbins=hbins, root=ROOT, repo=REPO,
                                    goenv=GOENV, build_harness=build_harness, sh=sh, log=log)
         for v in ex_viol:
             all_new_mons.append(v)
@@ -646,6 +656,7 @@ def check(pid, tier, seed):
                     if ms["mon"]["idx"] == m.get("idx"):
                         body["history"] = ms["history"]
         # shrink the failing history (the monitor must still fire)
+        hbin = hbins.get(m.get("component"))
         if hbin and body.get("history_line") and m.get("component"):
             def still(cl, comp=m["component"]):
                 f = os.path.join(workdir, "shrink.in")
@@ -667,9 +678,12 @@ def check(pid, tier, seed):
     elif proof["broken"] or all_divs or harness_errors:
         # proof or correspondence broken, no monitor hit yet: search harder with the targeted generator
         found = None
-        if hbin is not None and ok_ext:
+        if ok_ext:
             for cspec in spec["components"]:
                 comp = cspec["name"]
+                hbin = hbins.get(comp)
+                if hbin is None:
+                    continue
                 n = cspec["quick"] * 10
                 _, rep = run_harness(hbin, comp, seed + 7919, n, tier, workdir, "search", targeted=True,
                                      shards=8, extra_env=cspec.get("env"))
@@ -684,9 +698,10 @@ def check(pid, tier, seed):
                 "diverging_history_lines": [d["line"] for d in all_divs[:3]],
                 "harness_errors": harness_errors}
         # shrink the first divergence
-        if all_divs and hbin:
+        if all_divs and hbins.get(all_divs[0]["component"]):
             d = all_divs[0]
             comp = d["component"]
+            hbin = hbins[comp]
             proj = [c for c in spec["components"] if c["name"] == comp][0].get("proj")
 
             def still(cl):
@@ -790,7 +805,8 @@ def replay_file(pid, path):
         return check(pid, "quick", int(body.get("seed", 1)))
     comp = body.get("component") or spec["components"][0]["name"]
     with Lock("build"):
-        hbin, hout = build_harness()
+        hbins, hout = build_harness([comp])
+    hbin = hbins.get(comp)
     if hbin is None:
         print(hout)
         return 2
